@@ -55,6 +55,11 @@ var checks = map[string]checkSpec{
 		Quick:     40 * time.Second, Thorough: 12 * time.Minute, Level: "exploration",
 		Rule: "2-5 brokers with heterogeneous advertised version tables ([min,max] per api and broker), topics, partitions and groups spread over them; 1-4 goroutines issue every routed kind of Client call (produce, fetch, multi-leader list-offsets, group requests, create-topics, transactional InitProducerID, filtered metadata) while leaders, coordinators and the controller move; every request in the brokers' journal must have gone to the broker designated by a metadata snapshot (or FindCoordinator answer) delivered within MetadataTTL + RTT before its arrival, at the highest version common to the library's declared range and the range that broker advertised.",
 	},
+	"C19": {
+		Scenarios: []scnSpec{{Name: "queries", Share: 1}},
+		Quick:     35 * time.Second, Thorough: 10 * time.Minute, Level: "exploration",
+		Rule: "Random static cluster states (1-4 brokers, topics/partitions spread over leaders, log start offsets from 0 to beyond 2^33, record timestamps, committed offsets per group) queried through Conn (ReadOffsets, ReadOffset(time), Seek in every whence mode with and without SeekDontCheck, ReadPartitions) and Client (ListOffsets spanning many topics/partitions/leaders with mixed first/last/time requests, OffsetFetch, ConsumerOffsets, OffsetCommit, Metadata) by 1-3 goroutines, with per-partition error codes and an unreachable leader for a subset; every returned value is compared with the model and an injected failure must appear on its partition only.",
+	},
 	"C07": {
 		Scenarios: []scnSpec{{Name: "writer", Params: "focus=order", Share: 1}},
 		Quick:     35 * time.Second, Thorough: 10 * time.Minute, Level: "exploration",
